@@ -3,6 +3,7 @@
    it closes.  No axioms. *)
 From CFDP Require Import Base LostSeg LostSegSpec Fs Crc Checksum Handler Dest HandlerSpec.
 From CFDP.gen Require Import Tables.
+From CFDP.proofs Require Import LostSegProofs.
 From RecordUpdate Require Import RecordSet.
 Import RecordSetNotations.
 Open Scope monad_scope.
@@ -144,19 +145,155 @@ Proof.
     eexists. split; [reflexivity|]. cbn. rewrite app_nil_r. repeat split; reflexivity.
 Qed.
 
+(* ---- the loop over the tracked ranges (F9 repair): fold_left (fun m sg => m ;;; remove_covered off e sg) tr (ret tt) *)
+Definition rc_loop (off e : Z) (l : list seg) : D unit :=
+  fold_left (fun m sg => m ;;; remove_covered off e sg) l (ret tt).
+
+Lemma fold_rc_seq : forall off e l (m : D unit) s,
+  fold_left (fun m sg => m ;;; remove_covered off e sg) l m s = bind m (fun _ => rc_loop off e l) s.
+Proof.
+  intros off e l. induction l as [|sg t IH]; intros m s.
+  - unfold rc_loop. cbn [fold_left]. unfold bind, ret. destruct (m s) as [s1 [[]|x]]; reflexivity.
+  - unfold rc_loop. cbn [fold_left]. rewrite IH, bind_assoc.
+    unfold bind at 1 3. destruct (m s) as [s1 [[]|x]]; [|reflexivity].
+    rewrite IH, bind_assoc, bind_ret. reflexivity.
+Qed.
+
+Lemma rc_loop_nil : forall off e s, rc_loop off e [] s = (s, Ok tt).
+Proof. reflexivity. Qed.
+
+Lemma rc_loop_cons : forall off e sg t s,
+  rc_loop off e (sg :: t) s = bind (remove_covered off e sg) (fun _ => rc_loop off e t) s.
+Proof.
+  intros. unfold rc_loop at 1. cbn [fold_left]. rewrite fold_rc_seq, bind_assoc, bind_ret. reflexivity.
+Qed.
+
+(* what the loop leaves alone *)
+Definition trk_frame (s s' : dst) : Prop :=
+  d_queue s' = d_queue s /\ p_last_start (d_p s') = p_last_start (d_p s) /\ p_last_end (d_p s') = p_last_end (d_p s) /\
+  p_rcfg (d_p s') = p_rcfg (d_p s) /\ fs_d s' = fs_d s /\ log_d s' = log_d s.
+
+Lemma trk_frame_refl : forall s, trk_frame s s.
+Proof. intros s. repeat split; reflexivity. Qed.
+Lemma trk_frame_trans : forall s1 s2 s3, trk_frame s1 s2 -> trk_frame s2 s3 -> trk_frame s1 s3.
+Proof.
+  intros s1 s2 s3 [A1 [A2 [A3 [A4 [A5 A6]]]]] [B1 [B2 [B3 [B4 [B5 B6]]]]].
+  repeat split; congruence.
+Qed.
+Lemma trk_frame_set : forall s tr, trk_frame s (s <| d_p ::= (fun p => p <| p_tracker := tr |>) |>).
+Proof. intros s tr. repeat split; reflexivity. Qed.
+
+(* one iteration *)
+Lemma remove_covered_miss : forall off e sg s,
+  (fst sg <? e) && (off <? snd sg) = false -> remove_covered off e sg s = (s, Ok tt).
+Proof. intros off e sg s H. unfold remove_covered. rewrite H. reflexivity. Qed.
+
+Lemma remove_covered_hit : forall off e sg s tr' b,
+  (fst sg <? e) && (off <? snd sg) = true ->
+  LostSeg.remove (Z.max (fst sg) off, Z.min (snd sg) e) (p_tracker (d_p s)) = Ok (tr', b) ->
+  remove_covered off e sg s = (s <| d_p ::= (fun p => p <| p_tracker := tr' |>) |>, Ok tt).
+Proof. intros off e sg s tr' b H R. unfold remove_covered. rewrite H, bind_gp, R. reflexivity. Qed.
+
+(* ranges the received data does not touch are skipped *)
+Lemma rc_loop_miss : forall off e l s,
+  (forall sg, In sg l -> (fst sg <? e) && (off <? snd sg) = false) -> rc_loop off e l s = (s, Ok tt).
+Proof.
+  intros off e l. induction l as [|sg t IH]; intros s H; [reflexivity|].
+  rewrite rc_loop_cons, (bind_ok _ _ _ _ _ _ _ (remove_covered_miss off e sg s (H sg (or_introl eq_refl)))).
+  apply IH. intros r Hr. apply H. right. exact Hr.
+Qed.
+
+(* received data of length zero: every iteration removes an empty range *)
+Lemma rc_loop_empty : forall off l s,
+  exists s', rc_loop off off l s = (s', Ok tt) /\ p_tracker (d_p s') = p_tracker (d_p s) /\ trk_frame s s'.
+Proof.
+  intros off l. induction l as [|sg t IH]; intros s.
+  - exists s. split; [reflexivity|]. split; [reflexivity | apply trk_frame_refl].
+  - rewrite rc_loop_cons. destruct ((fst sg <? off) && (off <? snd sg)) eqn:E.
+    + assert (R : LostSeg.remove (Z.max (fst sg) off, Z.min (snd sg) off) (p_tracker (d_p s)) = Ok (p_tracker (d_p s), false)).
+      { apply andb_prop in E. destruct E as [E1 E2]. apply Z.ltb_lt in E1, E2.
+        replace (Z.max (fst sg) off) with off by lia. replace (Z.min (snd sg) off) with off by lia.
+        unfold remove. cbn [fst snd]. rewrite Z.sub_diag. reflexivity. }
+      rewrite (bind_ok _ _ _ _ _ _ _ (remove_covered_hit off off sg s _ _ E R)).
+      destruct (IH (s <| d_p ::= (fun p => p <| p_tracker := p_tracker (d_p s) |>) |>)) as [s' [E' [T' F']]].
+      exists s'. split; [exact E'|]. split; [rewrite T'; reflexivity|].
+      eapply trk_frame_trans; [apply trk_frame_set | exact F'].
+    + rewrite (bind_ok _ _ _ _ _ _ _ (remove_covered_miss off off sg s E)). apply IH.
+Qed.
+
+(* the received data lies within the tracked range (a, b), no other range of the list touches it: the loop is the one removal *)
+Lemma rc_loop_one : forall l off e a b s tr' bb,
+  KU l -> In (a, b) l -> a <= off -> off < e -> e <= b ->
+  (forall r, In r l -> fst r = a -> r = (a, b)) ->
+  (forall r, In r l -> fst r <> a -> (fst r <? e) && (off <? snd r) = false) ->
+  LostSeg.remove (off, e) (p_tracker (d_p s)) = Ok (tr', bb) ->
+  exists s', rc_loop off e l s = (s', Ok tt) /\ p_tracker (d_p s') = tr' /\ trk_frame s s'.
+Proof.
+  intros l off e a b. induction l as [|r t IH]; intros s tr' bb HK Hin Ha Hoe Hb Heq Hmiss R; [destruct Hin|].
+  cbn [KU] in HK. destruct HK as [HK1 HK2]. rewrite rc_loop_cons.
+  destruct (Z.eq_dec (fst r) a) as [Era | Era].
+  - pose proof (Heq r (or_introl eq_refl) Era) as ->. cbn [fst] in HK1.
+    assert (E : (fst (a, b) <? e) && (off <? snd (a, b)) = true).
+    { cbn [fst snd]. apply andb_true_intro. split; apply Z.ltb_lt; lia. }
+    assert (R' : LostSeg.remove (Z.max (fst (a, b)) off, Z.min (snd (a, b)) e) (p_tracker (d_p s)) = Ok (tr', bb)).
+    { cbn [fst snd]. replace (Z.max a off) with off by lia. replace (Z.min b e) with e by lia. exact R. }
+    rewrite (bind_ok _ _ _ _ _ _ _ (remove_covered_hit off e (a, b) s _ _ E R')).
+    rewrite rc_loop_miss.
+    + eexists. split; [reflexivity|]. split; [reflexivity | apply trk_frame_set].
+    + intros q Hq. apply Hmiss; [right; exact Hq | apply HK1; exact Hq].
+  - rewrite (bind_ok _ _ _ _ _ _ _ (remove_covered_miss off e r s (Hmiss r (or_introl eq_refl) Era))).
+    destruct Hin as [Hin | Hin]; [subst r; cbn [fst] in Era; congruence|].
+    apply (IH s tr' bb HK2 Hin Ha Hoe Hb); [| | exact R].
+    + intros q Hq. apply Heq. right. exact Hq.
+    + intros q Hq. apply Hmiss. right. exact Hq.
+Qed.
+
+(* the loop on a well-formed tracker, for received data that lies within one tracked range or touches none
+   (the precondition op_pre of C18's remove): it does what the single removal did before the F9 repair *)
+Lemma rc_loop_as_remove : forall s off e tr' b,
+  Inv (p_tracker (d_p s)) -> op_pre (p_tracker (d_p s)) (ORemove off e) ->
+  LostSeg.remove (off, e) (p_tracker (d_p s)) = Ok (tr', b) ->
+  exists s', rc_loop off e (p_tracker (d_p s)) s = (s', Ok tt) /\ p_tracker (d_p s') = tr' /\ trk_frame s s'.
+Proof.
+  intros s off e tr' b HI [Hle Hpre] R.
+  destruct (Z.eq_dec off e) as [-> | Hne].
+  - destruct (rc_loop_empty e (p_tracker (d_p s)) s) as [s' [E [T F]]].
+    exists s'. split; [exact E|]. split; [|exact F].
+    unfold remove in R. cbn [fst snd] in R. rewrite Z.sub_diag in R. cbn in R. injection R as <- _. exact T.
+  - assert (Hlt : off < e) by lia.
+    destruct Hpre as [[a [b0 [Hin [Ha Hb]]]] | Hn].
+    + destruct (sep_from _ a b0 HI Hin) as [Hab [Heq Hsep]].
+      apply (rc_loop_one (p_tracker (d_p s)) off e a b0 s tr' b (Inv_KU _ HI) Hin Ha Hlt Hb Heq); [|exact R].
+      intros r Hr Hf. destruct (Hsep r Hr Hf) as [_ Hd].
+      apply andb_false_iff. destruct Hd; [right | left]; apply Z.ltb_ge; lia.
+    + rewrite (remove_untouched_spec _ off e HI Hle Hn) in R. injection R as <- _.
+      exists s. split; [|split; [reflexivity | apply trk_frame_refl]].
+      apply rc_loop_miss. intros [c d] Hr. cbn [fst snd].
+      destruct (Inv_WF _ HI) as [W1 _]. specialize (W1 _ Hr). cbn [fst snd] in W1.
+      apply andb_false_iff.
+      destruct (Z_lt_dec c e) as [Hce|]; [|left; apply Z.ltb_ge; lia].
+      destruct (Z_lt_dec off d) as [Hod|]; [|right; apply Z.ltb_ge; lia].
+      exfalso. apply (Hn (Z.max c off)); [lia|]. exists c, d. split; [exact Hr | lia].
+Qed.
+
+(* Statement changed with the F9 repair (the single removal became the loop over the tracked ranges): on a well-formed
+   tracker, for received data that lies within one tracked range or touches none, the call leaves exactly the tracker the
+   single removal leaves.  (For other data the loop removes from every tracked range the part covered: TrackInvProofs.v.) *)
 Lemma retransmitted_removed : forall s off len tr' b,
+  Inv (p_tracker (d_p s)) -> op_pre (p_tracker (d_p s)) (ORemove off (off + len)) ->
   off + len <= p_last_start (d_p s) -> off < p_last_end (d_p s) ->
   LostSeg.remove (off, off + len) (p_tracker (d_p s)) = Ok (tr', b) ->
   exists s', lost_segment_handling off len s = (s', Ok tt) /\ p_tracker (d_p s') = tr' /\ d_queue s' = d_queue s.
 Proof.
-  intros s off len tr' b H1 H2 Hrm. unfold lost_segment_handling. rewrite bind_gp.
+  intros s off len tr' b HI Hpre H1 H2 Hrm. unfold lost_segment_handling. rewrite bind_gp.
   replace (p_last_end (d_p s) <? off) with false by (symmetry; apply Z.ltb_ge; lia).
   rewrite bind_when_false, bind_gp.
   replace (p_last_end (d_p s) <=? off) with false by (symmetry; apply Z.leb_gt; lia).
   rewrite bind_when_false, bind_gp.
   replace (off + len <=? p_last_start (d_p s)) with true by (symmetry; apply Z.leb_le; lia).
-  unfold when. rewrite bind_gp, Hrm.
-  eexists. split; [reflexivity|]. cbn. split; reflexivity.
+  unfold when. rewrite bind_gp.
+  destruct (rc_loop_as_remove s off (off + len) tr' b HI Hpre Hrm) as [s' [E [T F]]].
+  exists s'. split; [exact E|]. split; [exact T | apply F].
 Qed.
 
 (* ------------------------------------------------------------------ the deferred procedure *)
